@@ -66,6 +66,12 @@ def build_db(ft, lemmas, goal_variant):
         t = mmgen.apply('proof-rule-prop-1', fr, {'ph0': ph0, 'ph1': ph1}, [])
         st.append(('block', [('d', ('ph0', 'ph2')),
                              ('p', 'l6', (TH, IMP(ph0, IMP(ph1, ph0))), mmref.encode_compressed(t, mand(['ph0', 'ph1']), 'none'))]))
+    if 'L8' in lemmas and 'L2' in lemmas:
+        # a lemma with an essential hypothesis that uses ANOTHER lemma with an essential hypothesis, twice
+        _, fr8 = frames_of(st)
+        t = mmgen.apply('l2', fr8, {'ph0': A('\\f', ph0)}, [mmgen.apply('l2', fr8, {'ph0': ph0}, [('l8.0', [])])])
+        st.append(('block', [('e', 'l8.0', (TH, ph0)),
+                             ('p', 'l8', (TH, A('\\f', A('\\f', ph0))), mmref.encode_compressed(t, mand(['ph0']) + ['l8.0'], 'all'))]))
     if 'L7' in lemmas:
         # the proof goes through a DUMMY variable (ph3 occurs in no statement of the lemma): its floating hypothesis is not
         # mandatory, so it is named in the proof's label list and the slice has to declare the variable for it
@@ -110,6 +116,9 @@ def build_db(ft, lemmas, goal_variant):
     elif goal_variant == 'dummy' and 'L7' in lemmas:
         target = IMP(c0, c0)
         t = mmgen.apply('l7', fr, {'ph0': c0}, [])
+    elif goal_variant == 'chain' and 'L8' in lemmas and 'L2' in lemmas:
+        target = A('\\f', A('\\f', A('\\f', c0)))
+        t = mmgen.apply('l8', fr, {'ph0': A('\\f', c0)}, [('ax-b', [])])
     elif goal_variant == 'axiom':
         target = IMP(c0, A('c1'))
         t = ('ax-a', [])
@@ -125,9 +134,9 @@ def specs(thorough):
     orders = [(0, 1, 2), (2, 0, 1), (1, 2, 0)] if thorough else [(0, 1, 2), (1, 2, 0)]
     for o in orders:
         for notation in (False, True):
-            for k in range(0, 8 if thorough else 4):
-                for lem in itertools.combinations(('L1', 'L2', 'L3', 'L4', 'L5', 'L6', 'L7'), k):
-                    for gv in ('refl', 'rule', 'both', 'dv', 'nested', 'notation', 'gdv', 'dvextra', 'dummy', 'axiom'):
+            for k in range(0, 9 if thorough else 4):
+                for lem in itertools.combinations(('L1', 'L2', 'L3', 'L4', 'L5', 'L6', 'L7', 'L8'), k):
+                    for gv in ('refl', 'rule', 'both', 'dv', 'nested', 'notation', 'gdv', 'dvextra', 'dummy', 'chain', 'axiom'):
                         out.append((o, notation, lem, gv))
     return out
 
@@ -220,7 +229,7 @@ def slices(db, desc, orig_model):
 
 
 def _kind(label):
-    return {'l1': 'plain', 'l2': 'essential', 'l3': 'disjoint', 'l4': 'nested', 'l5': 'global_dv', 'l6': 'dv_extra_var', 'l7': 'dummy_var'}.get(label, 'goal')
+    return {'l1': 'plain', 'l2': 'essential', 'l3': 'disjoint', 'l4': 'nested', 'l5': 'global_dv', 'l6': 'dv_extra_var', 'l7': 'dummy_var', 'l8': 'essential_uses_essential'}.get(label, 'goal')
 
 
 def db_chunk(sps):
